@@ -39,6 +39,51 @@ static mjModel* get_model(unsigned long long seed, unsigned feat, int nbody) {
     for (int i = 0; i < 3; i++) c->pos[i] = mjg_range(&R, -0.2, 0.2);
     mjg_quat(&R, c->quat);
   }
+  // C07_FIXED (bit 20 of feat, ignored by mjgen): jointless bodies, so that body id, weld id and root id differ:
+  // fixed links under moving bodies, chains of fixed links, jointed bodies under fixed links, a jointless body with a
+  // mass-less second geom, static bodies welded to the world; every one carries geoms and, mostly, sites / cameras
+  // (which also breaks the site-id = body-id - 1 pattern of mjgen)
+  if (feat & (1u << 20)) {
+    mjsBody* pool[64]; int npool = 0;
+    for (int b = 0; b < nbody && npool < 32; b++) { char nm[16]; snprintf(nm, sizeof(nm), "b%d", b); mjsBody* bb = mjs_findBody(s, nm); if (bb) pool[npool++] = bb; }
+    int nextra = 2 + mjg_int(&R, 4);
+    for (int k = 0; k < nextra && npool < 60; k++) {
+      int toworld = mjg_chance(&R, 0.15);
+      mjsBody* parent = toworld ? mjs_findBody(s, "world") : pool[npool - 1 - mjg_int(&R, npool > 3 ? 3 : npool)];   // prefer recent ones: chains
+      if (k == 0 && npool > 0) parent = pool[mjg_int(&R, npool)];
+      mjsBody* fb = mjs_addBody(parent, NULL);
+      char nm[16]; snprintf(nm, sizeof(nm), "f%d", k); mjs_setName(fb->element, nm);
+      for (int i = 0; i < 3; i++) fb->pos[i] = mjg_range(&R, -0.3, 0.3);
+      if (mjg_chance(&R, 0.7)) mjg_quat(&R, fb->quat);
+      int jointed = !toworld && k > 0 && mjg_chance(&R, 0.3);       // a moving link below (possibly) fixed links
+      if (jointed) {
+        mjsJoint* j = mjs_addJoint(fb, NULL); snprintf(nm, sizeof(nm), "fj%d", k); mjs_setName(j->element, nm);
+        int t = mjg_int(&R, 3); j->type = t == 0 ? mjJNT_HINGE : t == 1 ? mjJNT_SLIDE : mjJNT_BALL;
+        for (int i = 0; i < 3; i++) { j->pos[i] = mjg_range(&R, -0.1, 0.1); j->axis[i] = mjg_range(&R, -1, 1); }
+        if (fabs(j->axis[0]) + fabs(j->axis[1]) + fabs(j->axis[2]) < 0.1) j->axis[2] = 1;
+      }
+      int ng = 1 + mjg_int(&R, 2);
+      for (int g = 0; g < ng; g++) {
+        mjsGeom* gg = mjs_addGeom(fb, NULL);
+        gg->type = mjg_chance(&R, 0.5) ? mjGEOM_BOX : mjGEOM_SPHERE;
+        for (int i = 0; i < 3; i++) { gg->size[i] = mjg_range(&R, 0.03, 0.1); gg->pos[i] = mjg_range(&R, -0.15, 0.15); }
+        if (mjg_chance(&R, 0.6)) mjg_quat(&R, gg->quat);
+        gg->density = mjg_range(&R, 200, 2000); gg->contype = 0; gg->conaffinity = 0;
+      }
+      int nst = mjg_int(&R, 3);
+      for (int q = 0; q < nst; q++) {
+        mjsSite* st = mjs_addSite(fb, NULL);
+        for (int i = 0; i < 3; i++) st->pos[i] = mjg_range(&R, -0.15, 0.15);
+        if (mjg_chance(&R, 0.6)) mjg_quat(&R, st->quat);
+      }
+      if (mjg_chance(&R, 0.5)) {
+        mjsCamera* c = mjs_addCamera(fb, NULL);
+        for (int i = 0; i < 3; i++) c->pos[i] = mjg_range(&R, -0.2, 0.2);
+        mjg_quat(&R, c->quat);
+      }
+      if (!toworld) pool[npool++] = fb;
+    }
+  }
   M = mj_compile(s, NULL);
   if (!M) fprintf(stderr, "c07: compile failed: %s\n", mjs_getError(s));
   mj_deleteSpec(s);
@@ -216,14 +261,18 @@ int main(void) {
           mj_objectVelocity(m, d, mjOBJ_XBODY, b, vel, 0); pdk("vel_xbody", b, vel, 6);
           mj_objectVelocity(m, d, mjOBJ_BODY, b, vel, 0); pdk("vel_body", b, vel, 6);
           mj_objectVelocity(m, d, mjOBJ_XBODY, b, vel, 1); pdk("vel_xbody_local", b, vel, 6);
+          mj_objectVelocity(m, d, mjOBJ_BODY, b, vel, 1); pdk("vel_body_local", b, vel, 6);
         }
         pd("locs", locs, 3 * m->nbody);
         for (int g = 0; g < m->ngeom; g++) { mj_jacGeom(m, d, jp, jr, g); pdk("jacGeom_p", g, jp, 3 * nv); pdk("jacGeom_r", g, jr, 3 * nv);
-          mjtNum vel[6]; mj_objectVelocity(m, d, mjOBJ_GEOM, g, vel, 0); pdk("vel_geom", g, vel, 6); }
+          mjtNum vel[6]; mj_objectVelocity(m, d, mjOBJ_GEOM, g, vel, 0); pdk("vel_geom", g, vel, 6);
+          mj_objectVelocity(m, d, mjOBJ_GEOM, g, vel, 1); pdk("vel_geom_local", g, vel, 6); }
         for (int s = 0; s < m->nsite; s++) { mj_jacSite(m, d, jp, jr, s); pdk("jacSite_p", s, jp, 3 * nv); pdk("jacSite_r", s, jr, 3 * nv);
-          mjtNum vel[6]; mj_objectVelocity(m, d, mjOBJ_SITE, s, vel, 0); pdk("vel_site", s, vel, 6); }
+          mjtNum vel[6]; mj_objectVelocity(m, d, mjOBJ_SITE, s, vel, 0); pdk("vel_site", s, vel, 6);
+          mj_objectVelocity(m, d, mjOBJ_SITE, s, vel, 1); pdk("vel_site_local", s, vel, 6); }
         for (int c = 0; c < m->ncam; c++) { mj_jac(m, d, jp, jr, d->cam_xpos + 3 * c, m->cam_bodyid[c]); pdk("jacCam_p", c, jp, 3 * nv); pdk("jacCam_r", c, jr, 3 * nv);
-          mjtNum vel[6]; mj_objectVelocity(m, d, mjOBJ_CAMERA, c, vel, 0); pdk("vel_cam", c, vel, 6); }
+          mjtNum vel[6]; mj_objectVelocity(m, d, mjOBJ_CAMERA, c, vel, 0); pdk("vel_cam", c, vel, 6);
+          mj_objectVelocity(m, d, mjOBJ_CAMERA, c, vel, 1); pdk("vel_cam_local", c, vel, 6); }
         // perturbed configurations: +-eps along every dof (index k) and along qvel (index nv)
         memcpy(q0, d->qpos, sizeof(mjtNum) * nq);
         for (int k = 0; k <= nv; k++) for (int sg = 0; sg < 2; sg++) {
